@@ -26,3 +26,6 @@ for fn in sorted(glob.glob(os.path.join(ENGINE, "*.check.json"))):
         c = json.load(f)
     c["assumptions"] = TRUST + c.get("assumptions", [])
     CHECKS[c["id"]] = c
+
+# checks still under construction ("ready": false) can be run but are not in MANIFEST.json
+READY = {k: v for k, v in CHECKS.items() if v.get("ready", True)}
